@@ -1,5 +1,7 @@
 import MorfuseModel.PtrCell.Lemmas
 import MorfuseModel.Sched.Machine
+import MorfuseModel.Sched.MachineInstHost
+import MorfuseModel.Sched.MachineInstCalls
 /-!
 # C05 — host call / return protocol
 
@@ -58,6 +60,79 @@ theorem C05_params_count (n : Nat) (args : List V) : (bindLoop n 0 args).length 
 theorem C05_label_not_found_leaves_nothing (s : State) (label : Nat) (args : List V)
     (h : s.prog.length ≤ label) : hostCall s label args = (s, "err LabelNotFound") := by
   simp [hostCall, h]
+
+/-! ## Machine level: the host's `Event` after `ExecuteThread` (whole scheduler machine)
+
+`Reachable` / `reachable_hinv2` are those of `Sched/MachineHost.lean`, `Sched/MachineInstHost.lean`
+(host-operation histories without `save`/`load`, `ProgOK` programs, modulo fuel). -/
+
+theorem getRet_setRet (s : State) (c : Nat) (r : Ret) : (s.setRet c r).getRet c = r ∨ (s.setRet c r).getRet c = .none := by
+  unfold State.getRet State.setRet
+  simp only
+  induction s.calls with
+  | nil => right; rfl
+  | cons e l ih =>
+    by_cases he : e.1 = c
+    · left; simp [he]
+    · have hb : (e.1 == c) = false := by simpa using he
+      simp only [List.map_cons, hb, Bool.false_eq_true, if_false, List.find?_cons]
+      exact ih
+
+/-- **The result slot is decided when `ExecuteThread` returns.**  After a host call whose label exists the
+    call's slot is never left `open`: it holds the value of a synchronous `end v`, or nothing (plain `end` /
+    killed / NIL), or is marked pending because the thread is suspended and the host's `Event` keeps the
+    shared cell. -/
+theorem C05_machine_ret_decided (s : State) (label : Nat) (args : List V) (hl : label < s.prog.length) :
+    (hostCall s label args).1.getRet s.nextCall ≠ .open_ := by
+  have hl' : ¬ label ≥ s.prog.length := by omega
+  rw [hostCall_eq]
+  simp only [hl', if_false]
+  unfold callFinish
+  split
+  · rcases getRet_setRet (scriptExecuteInternal defaultFuel (callSetup s label args) s.nextTid) s.nextCall .pending with e | e <;>
+      (rw [e]; simp)
+  · rename_i hne
+    intro e
+    rw [e] at hne
+    exact hne rfl
+
+/-- **A failed host call changes nothing, machine level**: no thread, no script instance, no result slot —
+    and (with `reachable_hinv2`) the state keeps every invariant; a successful one creates exactly one new
+    instance id and at least one new thread id before it runs. -/
+theorem C05_machine_label_not_found_leaves_nothing {s : State} (h : Reachable s) (label : Nat) (args : List V)
+    (hl : s.prog.length ≤ label) :
+    (hostCall s label args).1 = s ∧ (hostCall s label args).2 = "err LabelNotFound" ∧
+      Reachable (hostCall s label args).1 := by
+  have he := C05_label_not_found_leaves_nothing s label args hl
+  rw [he]
+  exact ⟨rfl, rfl, h⟩
+
+/-- **A killed thread leaves nothing in the host's slot, machine level.**  Destroying a thread
+    (`delete thread` from any cascade: object removal, `endon`, `UnregisterAll`, …) — for every fuel, in any
+    state with the structural invariant — changes no result slot; in particular `Reset()` in a reachable
+    state leaves every slot exactly as it was (a pending slot stays pending, it never receives a value). -/
+theorem C05_machine_killed_leaves_slot (fuel : Nat) {s : State} (hn : NInv s) (t : Nat) :
+    (deleteThread fuel s t).calls = s.calls ∧ ∀ c, (deleteThread fuel s t).getRet c = s.getRet c := by
+  have h := (cqAll fuel).dt [] s t hn
+  exact ⟨h, fun c => by unfold State.getRet; rw [h]⟩
+
+theorem C05_machine_reset_leaves_slots {s : State} (h : Reachable s) :
+    s.outOfFuel = true ∨ ∀ c, (hostReset s).getRet c = s.getRet c := by
+  refine (reachable_hinv2 h).map (fun hi c => ?_)
+  have hk := killAllInsts_ck hi.h.inv.n hi.j
+  show ((({ killAllInsts s with prog := [], progParams := [] } : State).calls.find? (·.1 == c)).map (·.2)).getD .none = _
+  unfold State.getRet
+  rw [← hk]
+
+/-! non-vacuity: synchronous result, pending result -/
+example : ((hostCall (hostScript {} [[.end_ (.lit 7)]] [0]) 0 []).1.getRet 1) = .val (.int 7) := by decide +kernel
+example : ((hostCall (hostScript {} [[.wait 5, .end_ (.lit 7)]] [0]) 0 []).1.getRet 1) = .pending := by decide +kernel
+/-- … and the value arrives in the same slot when the thread ends after its wait; a thread killed by `Reset()`
+    leaves the slot pending -/
+example : (runOps {} [.script [[.wait 5, .end_ (.lit 7)]] [0], .call 0 [], .step 5]).getRet 1 = .val (.int 7) := by
+  decide +kernel
+example : (runOps {} [.script [[.wait 5, .end_ (.lit 7)]] [0], .call 0 [], .resetDirector]).getRet 1 = .pending := by
+  decide +kernel
 
 end Morfuse.Sched
 
